@@ -59,6 +59,14 @@ class LasReader:
         self._point_source: Optional["IPointReader"] = None
         self._source = source
 
+        if self.header.are_points_compressed and self.header.point_count == 0:
+            # no laz backend will be created for an empty file,
+            # the laszip vlr is not meant to be seen by the user
+            try:
+                self.header.vlrs.pop(self.header.vlrs.index("LasZipVlr"))
+            except ValueError:
+                pass
+
         self.points_read = 0
 
     @property
